@@ -37,6 +37,7 @@ type driver struct {
 	subs     []string
 	sched    []string
 	crons    []string
+	converge bool
 }
 
 func (d *driver) pick(xs []string) string { return xs[d.r.Intn(len(xs))] }
@@ -348,7 +349,9 @@ func (d *driver) run(steps int) error {
 }
 
 // drain: clients stop; the server runs until every accepted request has been answered
-// and nothing is pending (bounded).
+// and nothing is pending (bounded).  With converge, the background coroutines are then
+// given the bounded number of cycles the property speaks of, with hand-offs succeeding
+// and no faults, before the final state is logged.
 func (d *driver) drain(max int) error {
 	w := d.w
 	for i := 0; i < max; i++ {
@@ -357,8 +360,34 @@ func (d *driver) drain(max int) error {
 		if err := d.aioRound(true); err != nil {
 			return err
 		}
-		if len(w.open) == 0 && len(w.aio.pend) == 0 && len(w.aio.cqes) == 0 && i > 3 {
+		if len(w.open) == 0 && i > 3 {
 			break
+		}
+	}
+	if d.converge && len(w.open) == 0 {
+		post, err := project.DB(w.obs)
+		if err != nil {
+			return err
+		}
+		rows := 0
+		for _, tb := range []string{"promises", "tasks", "locks", "schedules"} {
+			rows += len(post[tb].(M))
+		}
+		overdue := countOverdue(post, w.now)
+		w.tr.emit(M{"e": "quiesce", "t": w.now, "overdue": overdue, "rows": rows})
+		// cycles: every row may need its own cycle (batch size 1), every completion its own
+		// tick (completion batch size 1), schedules may have to catch up a few occurrences
+		step := w.cfg.SignalTimeout
+		if step < 1 {
+			step = 1
+		}
+		cycles := 40 + 12*rows
+		for i := 0; i < cycles; i++ {
+			w.now += step
+			w.tick()
+			if err := d.aioRound(true); err != nil {
+				return err
+			}
 		}
 	}
 	post, err := project.DB(w.obs)
@@ -374,4 +403,36 @@ func (d *driver) drain(max int) error {
 		return fmt.Errorf("requests without a response after drain: %v", open)
 	}
 	return nil
+}
+
+// countOverdue is bookkeeping for the evidence only (how much there was to converge on);
+// it takes no part in any verdict.
+func countOverdue(post M, now int64) int {
+	n := 0
+	for _, v := range post["promises"].(M) {
+		p := v.(M)
+		if p["state"] == "PENDING" && p["timeout"].(int64) <= now {
+			n++
+		}
+	}
+	for _, v := range post["locks"].(M) {
+		if v.(M)["expiresAt"].(int64) <= now {
+			n++
+		}
+	}
+	for _, v := range post["schedules"].(M) {
+		if v.(M)["next"].(int64) <= now {
+			n++
+		}
+	}
+	for _, v := range post["tasks"].(M) {
+		t := v.(M)
+		if (t["state"] == "ENQUEUED" || t["state"] == "CLAIMED") && (t["expiresAt"].(int64) <= now || t["timeout"].(int64) <= now) {
+			n++
+		}
+		if t["state"] == "INIT" {
+			n++
+		}
+	}
+	return n
 }
